@@ -15,19 +15,31 @@ TEXT_METHODS = {'strip', 'lstrip', 'rstrip', 'lower', 'upper', 'capitalize'}
 
 # infix searches on program text outside the scanner, confirmed by reading
 ALLOWED = {
-    ('ParseString', "'\"' not in s[1:-1]"):
+    # (function, searched text): every search of that text in that function
+    ('ParseString', 's[1:-1]'):
         'the token is already delimited by the scanner; the test only rejects an inner quote',
-    ('ParseString', '\'"""\' not in s[3:-3]'):
+    ('ParseString', 's[3:-3]'):
         'the token is already delimited by the scanner; the test only rejects an inner triple quote',
-    ('SplitImport', "import_path.split('.')"):
+    ('SplitImport', 'import_path'):
         'an import path contains no strings or comments',
-    ('ParseImport', "file_import_str.split('.')"):
+    ('ParseImport', 'file_import_str'):
         'an import path contains no strings or comments',
-    ('ParseFile', "this_file_name.split('.')"):
+    ('ParseFile', 'this_file_name'):
         'a file name, not program text',
-    ('EnactIncantations', "'Signa inter verba conjugo, symbolum infixus evoco!' in main_code"):
+    ('EnactIncantations', 'main_code'):
         'whole-file search for the incantation, by design',
 }
+
+
+def _targets(repo, m, fi, call):
+  """parse.* functions a call may reach: resolved callees, or - for a call
+  through a loop variable ranging over a dispatch table - every function of the
+  table."""
+  out = [t for t in repo.resolve(fi, call) if t.startswith('parse.')]
+  if not out and isinstance(call.func, ast.Name):
+    from sa import tables
+    out = ['parse.' + n for n in tables.loop_functions(fi, call.func.id) if n in m.funcs]
+  return out
 
 
 class TextTyping(object):
@@ -77,11 +89,10 @@ class TextTyping(object):
         return 'LT'
       if isinstance(e.func, ast.Attribute) and t == 'join':
         return 'T' if e.args and self.kind(fi, e.args[0]) in ('LT', 'T') else None
-      for tg in self.repo.resolve(fi, e):
-        if tg.startswith('parse.'):
-          k = self.ret.get(tg[6:])
-          if k:
-            return k
+      for tg in _targets(self.repo, self.m, fi, e):
+        k = self.ret.get(tg[6:])
+        if k:
+          return k
       return None
     if isinstance(e, ast.BinOp) and isinstance(e.op, ast.Add):
       if self.kind(fi, e.left) == 'T' or self.kind(fi, e.right) == 'T':
@@ -148,9 +159,7 @@ class TextTyping(object):
           elif k == 'T':
             ch |= self._bind(fi, x.target, 'T')
         elif isinstance(x, ast.Call):
-          for tg in self.repo.resolve(fi, x):
-            if not tg.startswith('parse.'):
-              continue
+          for tg in _targets(self.repo, self.m, fi, x):
             callee = self.m.funcs.get(tg[6:])
             if callee is None:
               continue
@@ -181,17 +190,45 @@ def infix_searches(m, tt):
     for x in walk_local(fi.node):
       if isinstance(x, ast.Compare) and len(x.ops) == 1 and \
           isinstance(x.ops[0], (ast.In, ast.NotIn)):
-        if tt.kind(fi, x.comparators[0]) == 'T' and not (
-            isinstance(x.left, ast.Name) and len(getattr(x.left, 'id', '')) == 1 and
-            tt.kind(fi, x.left) == 'T' and False):
-          out.append((fi, x, norm(x)))
+        if tt.kind(fi, x.comparators[0]) == 'T':
+          out.append((fi, x, norm(x), norm(x.comparators[0])))
       elif isinstance(x, ast.Call) and isinstance(x.func, ast.Attribute):
         if x.func.attr in SEARCH_METHODS and tt.kind(fi, x.func.value) == 'T':
-          out.append((fi, x, norm(x)))
+          out.append((fi, x, norm(x), norm(x.func.value)))
         d = dotted(x.func)
         if d and d.startswith('re.') and any(tt.kind(fi, a) == 'T' for a in x.args):
-          out.append((fi, x, norm(x)))
+          out.append((fi, x, norm(x), ' '.join(norm(a) for a in x.args if tt.kind(fi, a) == 'T')))
   return out
+
+
+def _allowed_through_parameter(m, fi, subject, depth=2):
+  """a confirmed text handed to a helper as an argument is still that text:
+  when `subject` is a parameter of `fi` and every call of `fi` passes a value
+  that is allow-listed in its caller, the allow-list entry applies."""
+  if depth == 0 or fi.parent is not None or subject not in fi.params:
+    return None
+  pos = fi.params.index(subject)
+  found = None
+  n_calls = 0
+  for q, caller in m.funcs.items():
+    for c in walk_local(caller.node):
+      if isinstance(c, ast.Call) and call_tail(c) == fi.name and caller is not fi:
+        n_calls += 1
+        arg = None
+        if pos < len(c.args):
+          arg = c.args[pos]
+        for k in c.keywords:
+          if k.arg == subject:
+            arg = k.value
+        if arg is None:
+          return None
+        top = caller.qualname.split('.')[0]
+        key = next((k for k in ALLOWED if k == (top, norm(arg))), None) or \
+            _allowed_through_parameter(m, caller, norm(arg), depth - 1)
+        if key is None:
+          return None
+        found = key
+  return found if n_calls else None
 
 
 def run(chk):
@@ -209,13 +246,15 @@ def run(chk):
            'StripSpaces or at six confirmed sites', min_instances=6)
   sites = infix_searches(m, tt)
   seen_allowed = set()
-  for fi, node, text in sites:
+  for fi, node, text, subject in sites:
     top = fi.qualname.split('.')[0]
     if fi.qualname in SCANNER or top in SCANNER:
       chk.ob('C15-R1', True, None, 'scanner search %s' % text, '', fi=fi, node=node,
              nontrivial=False)
       continue
-    key = next((k for k in ALLOWED if k[1] == text), None)
+    key = next((k for k in ALLOWED if k == (top, subject)), None)
+    if key is None:
+      key = _allowed_through_parameter(m, fi, subject)
     if key is not None:
       seen_allowed.add(key)
       chk.ob('C15-R1', True, None, 'confirmed site %s' % text, ALLOWED[key], fi=fi, node=node)
@@ -304,15 +343,28 @@ def run(chk):
              norm(c.args[0], 40) for c in apps if c.args], fi=rc)
 
   sv = FnView(repo, 'parse.Strip')
+  # the test for an outer pair mentions '(' (directly or as argument of a helper)
   tests = [n for n in sv.cfg.stmt_nodes() if isinstance(sv.cfg.stmt[n], (ast.If, ast.While)) and
-           "== '('" in norm(sv.cfg.stmt[n].test)]
+           any(const_str(c) == '(' for c in ast.walk(sv.cfg.stmt[n].test))]
   strips = [n for n, c in sv.all_calls() if call_tail(c) == 'StripSpaces']
-  peel = [n for n in sv.cfg.stmt_nodes() if isinstance(sv.cfg.stmt[n], ast.Assign) and
-          isinstance(sv.cfg.stmt[n].value, ast.Subscript) and norm(sv.cfg.stmt[n].value.slice) == '1:-1']
+
+  def is_peel(e):
+    return isinstance(e, ast.Subscript) and norm(e.slice) == '1:-1'
+  peel, peel_stripped = [], set()
+  for n in sv.cfg.stmt_nodes():
+    st_ = sv.cfg.stmt[n]
+    if isinstance(st_, ast.Assign) and any(is_peel(e) for e in ast.walk(st_.value)):
+      peel.append(n)
+      v = st_.value
+      if isinstance(v, ast.Call) and call_tail(v) == 'StripSpaces' and v.args and \
+          any(is_peel(e) for e in ast.walk(v.args[0])):
+        peel_stripped.add(n)        # s = StripSpaces(s[1:-1]): stripped as it is peeled
   if not tests or not peel:
     raise AnalysisError('Strip: parenthesis test / peeling not recognised')
   ok = all(sv.cfg.must_pass_before(t, strips) for t in tests)
   for x in peel:
+    if x in peel_stripped:
+      continue
     r = sv.cfg.reachable(x, avoid=strips)
     if any(t in r for t in tests):
       ok = False
@@ -327,33 +379,44 @@ def run(chk):
   # inside '#' and '/' states nothing is yielded; inside string states
   # track_parenthesis is False
   t = tv
+  state_expr = K.scanner_state_expr(t.fi.node)
   for n in t.cfg.stmt_nodes():
     st = t.cfg.stmt[n]
     if isinstance(st, ast.Assign) and dotted(st.targets[0]) == 'track_parenthesis' and \
         isinstance(st.value, ast.Constant) and st.value.value is False:
       g = [norm(e) for e, val in t.guards(n) if val]
-      chk.ob('C15-R3', any('State()' in x for x in g), None,
-             'bracket tracking switched off in state %s' % [x for x in g if 'State()' in x][-1:],
+      chk.ob('C15-R3', any(state_expr in x for x in g), None,
+             'bracket tracking switched off in state %s' % [x for x in g if state_expr in x][-1:],
              '', fi=t.fi, node=st, nontrivial=False)
   states = set()
   for n in t.cfg.stmt_nodes():
     st = t.cfg.stmt[n]
-    if not (isinstance(st, ast.If) and isinstance(st.test, ast.Compare) and
-            norm(st.test.left) == 'State()' and len(st.test.ops) == 1):
+    if not isinstance(st, ast.If):
       continue
-    cmp0 = st.test.comparators[0]
-    if isinstance(st.test.ops[0], ast.Eq) and const_str(cmp0) is not None:
+    # the branch taken in the state: body of `if State() == s`, else-branch of
+    # `if not State() == s` / `if State() != s`
+    test, branch = st.test, st.body
+    if isinstance(test, ast.UnaryOp) and isinstance(test.op, ast.Not):
+      test, branch = test.operand, st.orelse
+    if not (isinstance(test, ast.Compare) and norm(test.left) == state_expr and len(test.ops) == 1):
+      continue
+    cmp0 = test.comparators[0]
+    op0 = test.ops[0]
+    if isinstance(op0, (ast.NotEq, ast.NotIn)):
+      branch = st.orelse if branch is st.body else st.body
+      op0 = ast.Eq() if isinstance(op0, ast.NotEq) else ast.In()
+    if isinstance(op0, ast.Eq) and const_str(cmp0) is not None:
       syms = [const_str(cmp0)]
-    elif isinstance(st.test.ops[0], ast.In) and isinstance(cmp0, (ast.Tuple, ast.List, ast.Set)) \
+    elif isinstance(op0, ast.In) and isinstance(cmp0, (ast.Tuple, ast.List, ast.Set)) \
         and all(const_str(e) is not None for e in cmp0.elts):
       syms = [const_str(e) for e in cmp0.elts]      # merged states
-    elif isinstance(st.test.ops[0], ast.In) and const_str(cmp0) is not None:
+    elif isinstance(op0, ast.In) and const_str(cmp0) is not None:
       syms = list(const_str(cmp0))                  # State() in '"\''
     else:
       continue
     for sym in syms:
       states.add(sym)
-      offs = [x for x in ast.walk(ast.Module(body=st.body, type_ignores=[]))
+      offs = [x for x in ast.walk(ast.Module(body=branch, type_ignores=[]))
               if isinstance(x, ast.Assign) and dotted(x.targets[0]) == 'track_parenthesis'
               and isinstance(x.value, ast.Constant) and x.value.value is False]
       if sym in ('"', "'", '`', '3', '#', '/'):
